@@ -18,6 +18,7 @@ N_THOROUGH = 3000000
 WALL_QUICK = 100
 WALL_THOROUGH = 1500
 RETRY = 25            # the property's stated number of tolerated empty reads
+SETTLE = 16           # reads tolerated after the outcome is decided (draining stray lines)
 
 REACH_FOCUS = {'ebb3_serial': None, 'ebb3_motion': None}
 
@@ -184,8 +185,11 @@ def check(scn, hist):
                 seg[1] += 1
                 if ev[2] == '':
                     seg[2] += 1
+        # "waits through up to 25 empty reads" fixes when a request may still succeed (success_rule below), not
+        # how many reads a request may make once its fate is decided: a few settling reads after a failure are
+        # harmless.  What must not happen is a wait that goes on and on.
         for s in segs:
-            if s[1] > RETRY + 1:
+            if s[1] > RETRY + 1 + SETTLE:
                 out.append(V(PROP, 'read_budget', m, oid, '%d blocking reads after %r' % (s[1], s[0])))
         # --- 2./5. outcome
         ignored = False
@@ -265,7 +269,7 @@ def check(scn, hist):
             knownv, want = expected_value(m, args, kw, st)
             if knownv and want is None and rec['ret'] is True:
                 pass        # a helper without a documented result may as well report success as True
-            elif knownv and (rec['ret'] != want or type(rec['ret']) is not type(want)):
+            elif knownv and rec['ret'] != want:      # (equality only: 1 for True is not a wrong value)
                 out.append(V(PROP, 'attribution', m, oid, 'returned %r, expected %r' % (rec['ret'], want)))
     return out
 
